@@ -368,6 +368,7 @@ def evidence(prop, tier, base_seed, done, selftest_info, wall, t_runs, nviol, kn
     tot = {}
     probes = {}
     by_rt = {}
+    by_tc = {}
     nontrivial = set()
     cases = 0
     sim_ms = 0
@@ -380,6 +381,9 @@ def evidence(prop, tier, base_seed, done, selftest_info, wall, t_runs, nviol, kn
             if k == "by_runtime":
                 for a, b in v.items():
                     by_rt[a] = by_rt.get(a, 0) + b
+            elif k == "by_toolchain":
+                for a, b in v.items():
+                    by_tc[a] = by_tc.get(a, 0) + b
             else:
                 tot[k] = tot.get(k, 0) + v
         for k, v in s["probes"].items():
@@ -421,6 +425,7 @@ def evidence(prop, tier, base_seed, done, selftest_info, wall, t_runs, nviol, kn
         "sim_time_ms": sim_ms,
         "deliveries": tot,
         "deliveries_by_runtime_pair": by_rt,
+        "fleets_by_c_toolchain": dict(sorted(by_tc.items())),
         "cross_version_cases": cases,
         "lineage_lengths": versions,
         "evolution_steps": step_kinds,
@@ -430,7 +435,7 @@ def evidence(prop, tier, base_seed, done, selftest_info, wall, t_runs, nviol, kn
         "selftest": selftest_info,
         "known_findings_seen": known_sigs,
         "components": {
-            "real": ["bitproto compiler (py + c renderers) from /repo", "generated Python + lib/py runtime", "generated C + lib/c runtime (gcc -O1, ctypes)"],
+            "real": ["bitproto compiler (py + c renderers) from /repo", "generated Python + lib/py runtime", "generated C + lib/c runtime (per fleet: gcc 12 or clang 14 at -O0/-O1/-O2/-O3/-Os; ctypes)"],
             "stub": ["transport (discrete-event queue)", "virtual clock", "reference producer (independent reference encoder)", "C struct accessors generated from the harness's schema model"],
             "not_executed": ["Go runtime (no toolchain): the same formula was repaired by inspection only"],
         },
